@@ -105,6 +105,25 @@ theorem public_regenerated (e : ExtKey) :
   simp only [Secp.Proofs.DriversChild.tup, ExtKey.isPrivate]
   rcases Bool.eq_false_or_eq_true (versionIsPrivate e.version) with h | h <;> simp [h]
 
+
+/-- `RecoverCompact` = `ParseCompactSignature` (the model's parser) followed by `RecoverPublicKey` (regenerated), the
+    compressed flag passed through -/
+theorem recoverCompact_front (sig h : Bytes) :
+    Secp.Gen.Drivers.recoverCompact sig h =
+      (match parseCompactM sig with
+       | .error (e, _) => DR.err e
+       | .ok (r, s, c, comp) =>
+         match Secp.Gen.Drivers.recoverPublicKey (r, s, c) h with
+         | .ok pk => DR.ok (pk, comp)
+         | .err e => DR.err e | .panic => DR.panic | .fuel => DR.fuel | .undef => DR.undef) := by
+  unfold Secp.Gen.Drivers.recoverCompact
+  cases hp : parseCompactM sig with
+  | error e => rfl
+  | ok t =>
+    obtain ⟨r, s, c, comp⟩ := t
+    simp only []
+    cases Secp.Gen.Drivers.recoverPublicKey (r, s, c) h <;> rfl
+
 end Secp.Proofs.DriversFront
 
 #print axioms Secp.Proofs.DriversFront.sign_front
